@@ -109,13 +109,15 @@ structure State where
   returned : List Nat
   /-- values returned by the API calls, in order -/
   rets : List Ret
+  /-- the API calls made so far, in order (the last one may still be in progress) -/
+  calls : List Op
 deriving Repr, DecidableEq
 
 /-- state after `thread_pool_create(n, cb)` (and every worker having reached its first lock) -/
 def init (n : Nat) : State :=
   { queue := [], done := [], safeDone := [], recycle := 0, nextTicket := 0, nextDeq := 0,
     itemCount := 0, status := 0, workers := List.replicate n .start, main := .idle,
-    submitted := [], started := [], returned := [], rets := [] }
+    submitted := [], started := [], returned := [], rets := [], calls := [] }
 
 /-- `store_completed`: insert before the first element whose ticket is `>=` the new one -/
 def insertDone (it : Item) : List Item → List Item
@@ -224,14 +226,14 @@ def stepMain (cfg : Cfg) (s : State) (c : MChoice) : Option State :=
   match s.main, c with
   | .idle, .call (.submit d) =>
       -- take an item from `recycle` or calloc one; then pthread_mutex_lock
-      some { s with recycle := s.recycle - 1, main := .submitLock d }
+      some { s with recycle := s.recycle - 1, main := .submitLock d, calls := s.calls ++ [.submit d] }
   | .idle, .call .dequeue =>
-      if s.itemCount = 0 then some { s with rets := s.rets ++ [.deq none] }
+      if s.itemCount = 0 then some { s with rets := s.rets ++ [.deq none], calls := s.calls ++ [.dequeue] }
       else match s.safeDone with
-        | it :: r => some (deqReturn { s with safeDone := r } it)
-        | [] => some { s with main := .deqLock }
-  | .idle, .call .getStatus => some { s with main := .statusLock }
-  | .idle, .call .destroy => some { s with main := .destroyLock }
+        | it :: r => some (deqReturn { s with safeDone := r, calls := s.calls ++ [.dequeue] } it)
+        | [] => some { s with main := .deqLock, calls := s.calls ++ [.dequeue] }
+  | .idle, .call .getStatus => some { s with main := .statusLock, calls := s.calls ++ [.getStatus] }
+  | .idle, .call .destroy => some { s with main := .destroyLock, calls := s.calls ++ [.destroy] }
   | .submitLock d, .cont false => some (submitBody s d)
   | .deqLock, .cont false => some (deqTry cfg s)
   | .deqWait sig, .cont spur => if sig != spur then some (deqTry cfg s) else none
